@@ -531,7 +531,10 @@ def gen_program(rng, opts=None):
         for sg in sigs:
             if not sg["signed"] and sg["width"] >= 2 and not sg.get("late") and r.random() < 0.12:
                 sg["struct"] = r.randint(1, sg["width"] - 1)
-    return {"domains": domains, "signals": sigs, "top": mods[0]}
+    out = {"domains": domains, "signals": sigs, "top": mods[0]}
+    if o.get("held_proxies", True) and r.random() < 0.15:
+        out["held_proxies"] = True
+    return out
 
 
 FORMAT_TYPES = ["", "d", "b", "o", "x", "X", "c", "s"]
@@ -574,6 +577,11 @@ def _gen_print(g, r, dom, readable, o):
         e = g.explicit(readable, 1)
         w, s = shape_of(e, sigs)
         spec = gen_spec(r)
+        if o.get("format_extras", True) and r.random() < 0.12:
+            # a comparison, printed as the one-bit number it is ("1" / "0" with the empty specification)
+            e = r.choice([["!=", e, ["const", r.randrange(8), 3, False]], ["<", e, ["const", 13, 5, False]]])
+            w, s = 1, False
+            spec = r.choice(["", "", "d", ">3", "b"])
         if spec.endswith("c"):
             # a valid code point: 7 bits, unsigned
             wide = ["cat", [e, ["const", 0x41, 7, False]]]
@@ -853,10 +861,21 @@ def build(prog):
                     args.extend(ch[2])
         return Format(s, *args)
 
+    held_map = {}
+
     def emit(m, stmts, fsm_ctx):
         for st in stmts:
             k = st[0]
             if k == "assign":
+                held = held_map.get(id(m))
+                if held is not None:
+                    # the domain proxy is fetched once (at whatever nesting depth it is first needed) and kept in a variable:
+                    # `d = m.d.sync` ... `d += stmt` must add the statement where the program is *now*
+                    dproxy = held.get(st[1])
+                    if dproxy is None:
+                        dproxy = held[st[1]] = m.d[st[1]]
+                    dproxy += ex(st[2]).eq(ex(st[3]))
+                    continue
                 m.d[st[1]] += ex(st[2]).eq(ex(st[3]))
             elif k == "if":
                 first = True
@@ -927,7 +946,10 @@ def build(prog):
             if self.desc is prog["top"]:
                 for cd_ in B.late_cds.values():
                     m.domains += cd_
+            if prog.get("held_proxies"):
+                held_map[id(m)] = {}
             emit(m, self.desc["stmts"], None)
+            held_map.pop(id(m), None)
             for i, sub in enumerate(self.desc["subs"]):
                 e = wrap(sub)
                 if sub["name"] is None:
